@@ -52,8 +52,9 @@ type cdef struct {
 type pgen struct {
 	t      *rapid.T
 	ty     ityp
-	vars   []string // assignable variables in scope
-	reads  []string // additional read-only operands (package vars, a, b ...)
+	vars   []string // assignable variables in scope (input dependent)
+	reads  []string // read-only input-dependent operands (a, b, x)
+	stat   []string // operands with a value known at compile time (package variables)
 	consts []cdef
 	calls  []string // call templates with %s for the argument
 	mults  int
@@ -64,17 +65,26 @@ func (g *pgen) lit() string {
 	lim := g.ty.limit()
 	switch rapid.IntRange(0, 3).Draw(g.t, "litkind") {
 	case 0:
-		return fmt.Sprintf("%d", rapid.IntRange(0, 3).Draw(g.t, "lit"))
+		return fmt.Sprintf("%d", rapid.IntRange(1, 3).Draw(g.t, "lit"))
 	case 1:
-		return fmt.Sprintf("0x%x", rapid.IntRange(0, lim-1).Draw(g.t, "lit"))
+		return fmt.Sprintf("0x%x", rapid.IntRange(1, lim-1).Draw(g.t, "lit"))
 	default:
-		return fmt.Sprintf("%d", rapid.IntRange(0, lim-1).Draw(g.t, "lit"))
+		return fmt.Sprintf("%d", rapid.IntRange(1, lim-1).Draw(g.t, "lit"))
 	}
 }
 
+// operand returns an input-dependent operand.
 func (g *pgen) operand() string {
 	ops := append(append([]string{}, g.vars...), g.reads...)
 	return rapid.SampledFrom(ops).Draw(g.t, "operand")
+}
+
+// anyOperand returns an input-dependent operand or a package variable.
+func (g *pgen) anyOperand() string {
+	if len(g.stat) > 0 && rapid.Bool().Draw(g.t, "static") {
+		return rapid.SampledFrom(g.stat).Draw(g.t, "statop")
+	}
+	return g.operand()
 }
 
 func (g *pgen) constRef() string {
@@ -92,7 +102,7 @@ func (g *pgen) constRef() string {
 func (g *pgen) leaf() string {
 	switch rapid.IntRange(0, 9).Draw(g.t, "leaf") {
 	case 0, 1, 2, 3:
-		return g.operand()
+		return g.anyOperand()
 	case 4, 5:
 		return g.lit()
 	case 6, 7, 8:
@@ -108,8 +118,10 @@ func (g *pgen) leaf() string {
 
 var binOps = []string{"+", "-", "*", "&", "|", "^", "+", "^"}
 
-// expr returns an expression that depends on at least one variable (so that
-// no constant-only sub-expression is folded: C12 owns folding).
+// expr returns an expression in which every operator has an input-dependent
+// left operand and two textually different operands, so that nothing is
+// folded to a constant (folded values get type int32 and no longer combine
+// with T; C12 owns folding).
 func (g *pgen) expr(depth int) string {
 	if depth <= 0 || rapid.IntRange(0, 3).Draw(g.t, "stop") == 0 {
 		return g.operand()
@@ -127,6 +139,9 @@ func (g *pgen) expr(depth int) string {
 		r = g.leaf()
 	} else {
 		r = g.expr(depth - 1)
+	}
+	if l == r {
+		r = g.lit()
 	}
 	if rapid.IntRange(0, 4).Draw(g.t, "swap") == 0 && op != "-" {
 		l, r = r, l
@@ -210,7 +225,7 @@ func drawConsts(t *rapid.T, ty ityp, prefix string, n int) []cdef {
 		res = append(res, cdef{
 			name:  fmt.Sprintf("%s%d", prefix, i),
 			typ:   ct,
-			value: rapid.IntRange(0, lim-1).Draw(t, "cval"),
+			value: rapid.IntRange(1, lim-1).Draw(t, "cval"),
 		})
 	}
 	return res
@@ -364,7 +379,9 @@ func drawMultiProgram(t *rapid.T) (string, []File, []string) {
 				if len(consts) > 0 {
 					fmt.Fprintf(&vars, "var %s %s = %s\n", name, ty.name, g.constRef())
 				} else {
+					// Zero valued: not read by Fn.
 					fmt.Fprintf(&vars, "var %s %s\n", name, ty.name)
+					continue
 				}
 			}
 			p.vars = append(p.vars, name)
@@ -376,7 +393,7 @@ func drawMultiProgram(t *rapid.T) (string, []File, []string) {
 			tab := prefix + "tab"
 			fmt.Fprintf(&vars, "var %s = [4]%s{%s, %s, %s, %s}\n", tab, ty.name,
 				g.lit(), g.lit(), g.lit(), g.lit())
-			g.reads = append(g.reads, tab+"[0]", tab+"[3]")
+			g.stat = append(g.stat, tab+"[0]", tab+"[3]")
 			if rapid.Bool().Draw(t, "derived") {
 				tags["init-computes"] = true
 				name := prefix + "d0"
@@ -392,12 +409,13 @@ func drawMultiProgram(t *rapid.T) (string, []File, []string) {
 			// functions: "package 'rec' not found".)
 			if rapid.Bool().Draw(t, "derived2") {
 				tags["init-computes"] = true
+				// (Not read by Fn: the compiler sometimes reports such
+				// a variable as undefined there.)
 				name := prefix + "d1"
 				fmt.Fprintf(&vars, "var %s %s = %s.p + %s.q\n", name, ty.name, rec, rec)
-				p.vars = append(p.vars, name)
 			}
 		}
-		if len(p.imports) > 0 && rapid.Bool().Draw(t, "callinit") {
+		if len(p.imports) > 0 && rapid.IntRange(0, 2).Draw(t, "callinit") == 0 {
 			tags["init-calls-import"] = true
 			name := prefix + "d2"
 			dep := pkgs[rapid.SampledFrom(p.imports).Draw(t, "initdep")]
@@ -407,28 +425,29 @@ func drawMultiProgram(t *rapid.T) (string, []File, []string) {
 
 		// The function.
 		g.vars = nil
-		g.reads = append(g.reads, p.vars...)
-		g.reads = append(g.reads, "x", "x")
+		g.stat = append(g.stat, p.vars...)
+		g.reads = []string{"x"}
 		for _, j := range p.imports {
 			g.calls = append(g.calls, pkgs[j].name+"."+pkgs[j].fn+"(%s)")
 		}
 		var fn strings.Builder
 		fmt.Fprintf(&fn, "func %s(x %s) %s {\n", p.fn, ty.name, ty.name)
 		if rapid.Bool().Draw(t, "fnlocal") {
-			fmt.Fprintf(&fn, "\tr := %s\n", g.expr(2))
-			g.reads = append(g.reads, "r")
+			fmt.Fprintf(&fn, "\tvar r %s = %s\n", ty.name, g.expr(2))
+			g.vars = append(g.vars, "r")
 		}
 		fmt.Fprintf(&fn, "\treturn %s\n}\n", g.expr(2))
 
-		// One or two files; all variables stay in one file (their order
-		// is the file order, which the directory listing decides).
+		// One or two files.  All variables and the function stay in one
+		// file: the order of variables is the file order, which the
+		// directory listing decides, and a function in another file than
+		// the variables it reads is sometimes rejected ("undefined
+		// variable").
 		if rapid.IntRange(0, 2).Draw(t, "split") == 0 {
 			tags["multi-file-pkg"] = true
 			files = append(files,
-				File{Path: p.name + "/defs.mpcl", Text: hdr.String() + body.String() + "\n" + vars.String()},
-				// A package's imports are shared by its files and
-				// must be declared once.
-				File{Path: p.name + "/code.mpcl", Text: "package " + p.name + "\n\n" + fn.String()})
+				File{Path: p.name + "/defs.mpcl", Text: "package " + p.name + "\n\n" + body.String()},
+				File{Path: p.name + "/code.mpcl", Text: hdr.String() + vars.String() + "\n" + fn.String()})
 		} else {
 			files = append(files, File{Path: p.name + "/" + p.name + ".mpcl",
 				Text: hdr.String() + body.String() + vars.String() + "\n" + fn.String()})
@@ -455,7 +474,7 @@ func drawMultiProgram(t *rapid.T) (string, []File, []string) {
 	writeConsts(&sb, t, g.consts)
 	if rapid.Bool().Draw(t, "mainvar") {
 		fmt.Fprintf(&sb, "\nvar gm %s = %s\n", ty.name, g.lit())
-		g.reads = append(g.reads, "gm")
+		g.stat = append(g.stat, "gm")
 	}
 	sb.WriteString("\n")
 	g.line(0, "func main(a %s, b %s) %s {", ty.name, ty.name, ty.name)
